@@ -11,7 +11,8 @@ RULE = ("one case = one broker session (default matcher): several named clients 
         "at once, over buffered (TCP-like) or synchronous pipes, with a slow watcher or with only 3-6 processors, so that the presence "
         "queue (capacity 100) runs full: every watcher must see every transition once and in its connection's order (notifications "
         "are grouped per source connection for the comparison). non-trivial = distinct (op, answer)")
-TRUSTED = ["the presence notification queue is drained before the next request (sequential histories); notification payloads are compared after dropping the timestamp",
+TRUSTED = ["the broker's own publishes on stats/<node>/ (monitoring sink 'self', once a second, into the owner's contract) are not answers to a request and are dropped from the observables",
+           "the presence notification queue is drained before the next request (sequential histories); notification payloads are compared after dropping the timestamp",
            "cluster-wide presence (survey of other brokers) is empty: single broker"]
 ASSUMPTIONS = ["share groups are excluded (membership of a lookup is random by design)", "checked with the default (emitter) matcher; under the mqtt matcher notifications are matched with the same-depth rule (documented in DESIGN.md)"]
 CLAIM = {
